@@ -34,6 +34,15 @@ func VP_C11_RoundTrip() {
 	}
 	var want []rec
 	offs := []int{0, 19800, -16200}
+	// identity as it can come out of the config loader: printable, no '<', no tab, no leading/trailing blank
+	name := zzvp.Str("name0", 1, "!-;=-~")
+	if nl := zzvp.Choose(zzvp.Param("namelen", 3)); nl > 0 {
+		if nl > 1 {
+			name += zzvp.Str("name1", nl-1, " -;=-~")
+		}
+		name += zzvp.Str("name2", 1, "!-;=-~")
+	}
+	email := zzvp.Str("mail", 1, "a-z:") + "@b.cd"
 	for i := 0; i < r; i++ {
 		id := string(rune('0' + i))
 		kind := []log.RecordType{log.CommitRecord, log.CheckoutRecord, log.ResetRecord, log.BranchRecord}[zzvp.Choose(4)]
@@ -46,7 +55,7 @@ func VP_C11_RoundTrip() {
 		}
 		msg := zzvp.Str("msg"+id, zzvp.Choose(zzvp.Param("msglen", 4)+1), vpMsgAlpha)
 		t := zzvp.Time(zzvp.Str("unix"+id, 10, "0-9"), offs[zzvp.Choose(3)])
-		zzvp.Assert(lg.WriteHEAD(log.NewRecord(kind, from, to, "A U Thor", "a@b.cd", t, msg)) == nil, "appending a journal entry succeeds")
+		zzvp.Assert(lg.WriteHEAD(log.NewRecord(kind, from, to, name, email, t, msg)) == nil, "appending a journal entry succeeds")
 		want = append(want, rec{kind, to, msg})
 	}
 	head := &Head{Reference: "main", Commit: &object.Commit{Object: &object.Object{Hash: vpID(1)}}}
